@@ -81,6 +81,26 @@ TRIGGERS = {
  "V-C17": ("C17", "WasmKeeper::send skips the bank transfer when all attached coins are zero-amount: the configured bank module never sees (and cannot reject) the implied BankMsg::Send of execute/instantiate with funds [0 x]"),
  "V-C18": ("C18", "MockApiBech::addr_humanize gained a length guard with < instead of <=: canonical addresses of exactly 64 bytes are refused (and so is validation of their encoding)"),
  "V-C19": ("C19", "RouterQuerier::raw_query formats the parse error of a malformed query request with {:?}: the error text handed back (also to contracts) contains the captured backtrace, i.e. depends on RUST_BACKTRACE and the call stack"),
+ "W-C01": ("C01", "App::execute_multi commits after each message instead of once for the call: a later message failing uncaught leaves the earlier messages' effects although the call returns Err"),
+ "W-C02": ("C02", "StorageTransaction::prepare drops every logged Set whose value equals what the backing store holds, op by op: a key changed by one completed step and restored by a later one to the old bytes commits the intermediate value"),
+ "W-C03": ("C03", "WasmKeeper::reply sorts the attributes of every event inside an Ok reply by key: the Reply no longer carries exactly the events the sub-message produced (needs attribute keys not already in byte order)"),
+ "W-C04": ("C04", "customize_response (lifting of Empty-typed entry points) sets data with unwrap_or_default: an entry point that set NO data comes through as present-but-empty, so a *_empty reply handler without data wipes earlier data and execute results are wrapped although nothing is present"),
+ "W-C05": ("C05", "WasmKeeper::send passes the attached coins through a map keyed by denomination: with one denomination named twice only the last amount is moved while the contract is told the full list"),
+ "W-C06": ("C06", "RepLog::commit sorts the log by key with an UNSTABLE sort before replaying it: with more than ~32 pending operations the order of operations on one key is lost (stale overwrite / removed key back)"),
+ "W-C07": ("C07", "set_with_prefix skips 'no-op' writes but reads the base at the UNPREFIXED key: a foreign raw entry equal to the view key and holding the value being written makes the write vanish"),
+ "W-C08": ("C08", "the write-cache iterates its own pending entries end-INCLUSIVE: a contract iterating without end bound sees the pending empty-key entry of the contract whose address is its byte-order successor (needs neighbouring addresses, same transaction)"),
+ "W-C09": ("C09", "BankKeeper::get_supply stops summing (map_while) at the first account that does not hold the denomination: supply under-reported whenever such an account sorts before a holder"),
+ "W-C10": ("C10", "get_rewards_internal floors credited and uncredited rewards separately (same as V-C15, written against C10): the Delegation query can show one token less than the same state pays; reported by the rewards property"),
+ "W-C11": ("C11", "WasmMsg::Migrate validates the target code id against the NUMBER of codes again (half of the repaired C11 defect): migration to a code stored under a non-contiguous id is refused"),
+ "W-C12": ("C12", "update_admin compares canonicalised addresses with .ok(): when neither the stored admin nor the sender can be canonicalised (admin recorded unvalidated at instantiation, e.g. 'owner'; sender 'random') None == None passes"),
+ "W-C13": ("C13", "build_app_response trims the custom event type when emitting it: an accepted type with surrounding whitespace does not surface unchanged"),
+ "W-C14": ("C14", "the denomination check moved from add_stake/remove_stake into the Delegate handler only: Redelegate with a foreign denomination moves real stake"),
+ "W-C15": ("C15", "slash rebuilds each staker's Shares with ..Default::default(): rewards credited up to the slash are dropped (partial slashes only)"),
+ "W-C16": ("C16", "slash skips unbonding entries that are already mature (payout_at <= now): with an unbonding period of zero an unbonding queued in the same block is paid unslashed"),
+ "W-C17": ("C17", "execute_submsg hands a FAILED sub-message to reply for every mode but Never: under reply_on Success a failing module no longer aborts the transaction"),
+ "W-C18": ("C18", "addr_canonicalize builds its error text with a byte-offset slice of the input: a multi-byte character straddling byte offset prefix.len() makes the helper panic instead of returning Err"),
+ "W-C19": ("C19", "Reply.gas_used carries the wall-clock nanoseconds the sub-message took"),
+ "W-C20": ("C20", "ContractWrapper::with_migrate_empty rebuilds the wrapper with reply_fn: None: a reply handler supplied before with_migrate_empty is lost"),
  "V-C20": ("C20", "ContractWrapper::with_checksum keeps the FIRST checksum (get_or_insert): only visible when with_checksum is applied twice with different values, which no subset / permutation of distinct steps does"),
  "U-C20": ("C20", "AppBuilder::new_custom starts from a literal block whose time lacks the sub-second part of mock_env().block: apps from new_custom / custom_app without with_block start 879305533 ns earlier than App::default()"),
 }
@@ -89,7 +109,7 @@ def main(logs):
     res = {}
     for lg in logs:
         for line in open(lg):
-            m = re.match(r"^([STUV]-C\d+) (\S+)(?: (.*))?$", line.strip())
+            m = re.match(r"^([STUVW]-C\d+) (\S+)(?: (.*))?$", line.strip())
             if not m: continue
             sid, key, rest = m.group(1), m.group(2), m.group(3) or ""
             r = res.setdefault(sid, {"checks": {}, "verified": {}})
@@ -124,7 +144,7 @@ def main(logs):
         json.dump(meta, open(os.path.join(d, "meta.json"), "w"), indent=1)
         rows.append((sid, prop, "yes" if prop in detected else ("NO" if r["checks"] else "not run"), ", ".join(detected), trig))
     with open(os.path.join(ROOT, "seeded", "README.md"), "w") as f:
-        f.write("# Seeded property-breaking changes (from sub-agents)\n\nS-* = round 1, T-* = round 2, U-* = round 3, V-* = round 4 (from round 2 on the sub-agent was told the earlier changes as 'already taken'). Each directory holds `patch.diff` (apply with `git -C /repo apply`), the demonstration test `seed_demo.rs`, the sub-agent's `NOTES.md` and `meta.json`.\nAll were re-verified with `tools/selftest.sh` on a scratch copy of /repo: the baseline suite passes with the change, the demonstration passes without and fails with it.\n\n| seed | breaks | own check detects | all quick checks that fail | needs |\n|---|---|---|---|---|\n")
+        f.write("# Seeded property-breaking changes (from sub-agents)\n\nS-* = round 1, T-* = round 2, U-* = round 3, V-* = round 4, W-* = round 5 (from round 2 on the sub-agent was told the earlier changes as 'already taken'). Each directory holds `patch.diff` (apply with `git -C /repo apply`), the demonstration test `seed_demo.rs`, the sub-agent's `NOTES.md` and `meta.json`.\nAll were re-verified with `tools/selftest.sh` on a scratch copy of /repo: the baseline suite passes with the change, the demonstration passes without and fails with it.\n\n| seed | breaks | own check detects | all quick checks that fail | needs |\n|---|---|---|---|---|\n")
         for row in rows:
             f.write("| %s | %s | %s | %s | %s |\n" % row)
     print("\n".join("%s %s own=%s all=[%s]" % r[:4] for r in rows))
